@@ -20,6 +20,7 @@ DOC = {
         'C03.R5': 'hashing task: send only on Some(hash), for every file of the inode group; None drops only that inode group',
         'C03.R6': 'deduplicate: repeated entries collapsed with unique_by(path hash) (global), never an adjacent-only dedup; entries bucketed by location are all re-emitted',
         'C03.R7': 'a FileInfo field changed by the hash function and used in the group key is propagated to every path of the inode (re-evaluates C01.R6)',
+        'C03.R9': 'the path identity key (Path::hash128, used by deduplicate, the visited set of the walk and the temp-file names) delimits the components it hashes: it delegates to a derived/std Hash impl or writes a length prefix / terminator next to every raw write',
         'C03.R8': 'offset subtraction in the stages is guarded (re-evaluates C13.R4)',
     },
     'not_decided': 'completeness of the directory walk (C09); hash determinism across threads; the external hash implementations',
@@ -260,3 +261,8 @@ def r78(ctx):
         o['detail'] = '[%s] %s' % (o['rule'], o['detail'])
         o['rule'] = 'C03.R8'
     ctx.rules_run.add('C03.R8')
+    from .common import delimited_identity_hash
+    uq = [c for b in [ctx.lib.body('group::deduplicate')] + [ctx.lib.body(x) for x in ctx.lib.closures_of('group::deduplicate')] if b is not None for c in b.calls(r'Path::hash128$')]
+    if not uq:
+        ctx.note('C03.R9', ctx.lib.body('group::deduplicate').where() if ctx.lib.body('group::deduplicate') else '', 'deduplicate does not key by Path::hash128 any more; R6 decides the key')
+    delimited_identity_hash(ctx, 'C03.R9', 'path::Path::hash128')
